@@ -8,6 +8,7 @@ ROOT = os.path.dirname(os.path.dirname(os.path.abspath(__file__)))
 REPO = os.environ.get("VERIF_REPO", "/repo")
 sys.path.insert(0, ROOT)
 PROPS = ["C%02d" % i for i in range(1, 21)]
+ONLY_PROPS = [x for x in (sys.argv[sys.argv.index("--props") + 1].split(",") if "--props" in sys.argv else [])]     # incremental: re-decide only these properties
 
 
 def one(sid):
@@ -27,7 +28,7 @@ def one(sid):
             ctx = Ctx(d)
         except AnalysisError as x:
             return sid, {p: ["ANALYSIS-ERROR: %s" % str(x)[:200]] for p in PROPS}
-        for p2 in PROPS:
+        for p2 in (ONLY_PROPS or PROPS):
             try:
                 R, _, _ = cli.run_property(p2, d, "quick", ctx)
             except AnalysisError as x:
@@ -61,13 +62,18 @@ def main():
             mp = os.path.join(ROOT, "seeded", sid, "meta.json")
             meta = json.load(open(mp))
             own = meta["property"] in det and not det[meta["property"]][0].startswith("ANALYSIS-ERROR")
+            if ONLY_PROPS and "_error" not in det:
+                merged = {k: v for k, v in meta.get("detected_by", {}).items() if k not in ONLY_PROPS}
+                merged.update(det)
+                det = merged
+                own = meta["property"] in det and not det[meta["property"]][0].startswith("ANALYSIS-ERROR")
             if write:
                 meta["detected_by"] = det
                 meta["detected_by_own_property_check"] = own
                 json.dump(meta, open(mp, "w"), indent=1)
             index[sid] = sorted(det)
             print(sid, "own" if own else "MISSED", {k: v[:1] for k, v in det.items()}, flush=True)
-    if write and only is None:
+    if write and only is None and not ONLY_PROPS:
         json.dump(index, open(os.path.join(ROOT, "seeded", "INDEX.json"), "w"), indent=1)
 
 
